@@ -94,7 +94,7 @@ Notation srv_request := (srv_request T attached).
 Notation srv_status := (srv_status T).
 Notation client_gone := (client_gone T attached).
 Notation server_from_client := (server_from_client T attached).
-Notation server_from_employee := (server_from_employee T).
+Notation server_from_employee := (server_from_employee T attached).
 Notation mgr_from_below := (mgr_from_below T).
 Notation mgr_from_above := (mgr_from_above T).
 Notation worker_from_above := (worker_from_above T).
@@ -235,7 +235,7 @@ Lemma server_from_client_b : forall p c m s, budget (server_from_client p c m s)
 Proof. intros. destruct m as [m|]; [destruct m|]; simpl; try reflexivity.
   apply srv_request_b. apply srv_status_b. unfold Crash.client_gone; destruct attached; reflexivity. Qed.
 Lemma server_from_employee_b : forall p c m s, budget (server_from_employee p c m s) = budget s.
-Proof. intros. destruct m as [m|]; [destruct m|]; simpl; try reflexivity. apply srv_result_b. Qed.
+Proof. intros. destruct m as [m|]; [destruct m|]; simpl; try reflexivity. apply srv_result_b. destruct attached; reflexivity. Qed.
 Lemma mgr_from_below_b : forall p c m s, budget (mgr_from_below p c m s) = budget s.
 Proof. intros. destruct m as [m|]; [destruct m|]; reflexivity. Qed.
 
@@ -286,10 +286,14 @@ Proof. intros WF c s s'. unfold Crash.recv_up.
         assert (sumn N (wlink (client_gone (par c) c s)) + 2 <= sumn N (wlink s)).
         { apply sum_strict with (c := c); auto. apply client_gone_le. apply client_gone_lt; auto. }
         lia.
-      * split. 2: bud. simpl.
-        destruct (boss_eof_lt (par c) c s Hp) as [A B].
-        assert (sumn N (wlink (shutdown (par c) (set_pend s (upd (pend s) c false)))) + 3 <= sumn N (wlink s))
-          by (apply sum_strict with (c := c); auto). lia.
+      * split. 2: (unfold Crash.server_from_employee; destruct attached; reflexivity).
+        unfold Crash.server_from_employee. destruct attached.
+        -- assert (sumn N (wlink (shutdown (par c) s)) + 2 <= sumn N (wlink s)).
+           { apply sum_strict with (c := c); auto. intros; apply shutdown_le. apply shutdown_child_le; auto. }
+           lia.
+        -- destruct (boss_eof_lt (par c) c s Hp) as [A B].
+           assert (sumn N (wlink (shutdown (par c) (set_pend s (upd (pend s) c false)))) + 3 <= sumn N (wlink s))
+             by (apply sum_strict with (c := c); auto). lia.
     + split. 2: bud. simpl.
       destruct (boss_eof_lt (par c) c s Hp) as [A B].
       assert (sumn N (wlink (shutdown (par c) (set_pend s (upd (pend s) c false)))) + 3 <= sumn N (wlink s))
@@ -432,9 +436,17 @@ Proof. intros c r k s s'. unfold Crash.call.
     replace (budget (client_raise c s)) with (budget s) by reflexivity. lia.
 Qed.
 
+Lemma fail_le : forall w s i, wlink (die w (send_up s w MSysErr)) i <= wlink s i.
+Proof. intros. wl. cases. all: done. Qed.
+
 Lemma step_variant : wf_topo = true -> forall s e s', step s e = Some s' ->
   variant s' <= variant s /\ (is_recv e = true -> variant s' < variant s).
-Proof. intros WF s e s' H. destruct e as [n|up c k|c r k|w t|up c tag]; simpl in H.
+Proof. intros WF s e s' H. destruct e as [n|up c k|c r k|w t|up c tag|w]; simpl in H.
+  6: { split; [|discriminate]. destruct (_ && _ && _) eqn:C; [|discriminate]. inversion H; subst s'; clear H.
+    rewrite !variant_unfold. replace (budget (die w (send_up s w MSysErr))) with (budget s) by reflexivity.
+    assert (sumn N (wlink (die w (send_up s w MSysErr))) <= sumn N (wlink s)).
+    { apply sumn_le. intros i _. apply fail_le. }
+    lia. }
   - destruct (_ && _); [|discriminate]. inversion H; subst. split; [|discriminate].
     rewrite !variant_unfold. assert (sumn N (wlink (die n s)) <= sumn N (wlink s)) by (apply sumn_le; intros; apply die_le).
     replace (budget (die n s)) with (budget s) by reflexivity. lia.
@@ -662,6 +674,7 @@ Lemma Inv_server_from_employee : forall p c m s, Inv s -> alive s p = true -> is
   Inv (server_from_employee p c m s).
 Proof. intros p c m s I Hal Hcl Hch He. destruct m as [m|]; [destruct m|]; simpl; auto.
   apply Inv_shutdown; auto. apply Inv_srv_result; auto. apply Inv_sys_error; auto.
+  destruct attached. apply Inv_shutdown; auto.
   apply Inv_shutdown_eof; auto. apply is_child_par in Hch. tauto. Qed.
 
 Lemma Inv_mgr_from_below : forall p c m s, Inv s -> alive s p = true -> is_client p = false ->
@@ -790,7 +803,12 @@ Proof. intros c r k s s' I. unfold Crash.call.
 Qed.
 
 Lemma Inv_step : wf_topo = true -> forall s e s', Inv s -> good_event e = true -> step s e = Some s' -> Inv s'.
-Proof. intros WF s e s' I G H. destruct e as [n|up c k|c r k|w t|up c tag]; simpl in H, G.
+Proof. intros WF s e s' I G H. destruct e as [n|up c k|c r k|w t|up c tag|w]; simpl in H, G.
+  6: { destruct (_ && _ && _) eqn:C; [|discriminate]. inversion H; subst s'; clear H.
+    apply andb_true_iff in C. destruct C as [C _]. apply andb_true_iff in C. destruct C as [_ C].
+    destruct (kindof w) eqn:K; try discriminate.
+    apply Inv_die. apply Inv_send_up; auto. apply wrk_not_client; auto.
+    intros m Hm _. eapply wf_leaf_worker; eauto. }
   - unfold crashable in H. destruct (_ && _) eqn:C; [|discriminate]. inversion H; subst.
     apply andb_true_iff in C. destruct C as [C _]. apply andb_true_iff in C. destruct C as [_ C].
     apply Inv_die; auto. unfold Crash.is_client. destruct (kindof n); auto; discriminate.
@@ -1103,7 +1121,9 @@ Proof. intros c s s' R. unfold Crash.recv_up.
     destruct (kindof (par c)); try discriminate; intros E; inversion E; subst s'; clear E.
     + destruct (is_client c).
       * apply (@RInv_client_gone (par c) c s); auto.
-      * apply (@RInv_shutdown (par c) (set_pend s (upd (pend s) c false))). apply RInv_set_pend; auto.
+      * change (RInv (server_from_employee (par c) c None s)). unfold Crash.server_from_employee. destruct attached.
+        apply RInv_shutdown; auto.
+        apply (@RInv_shutdown (par c) (set_pend s (upd (pend s) c false))). apply RInv_set_pend; auto.
     + apply (@RInv_shutdown (par c) (set_pend s (upd (pend s) c false))). apply RInv_set_pend; auto.
   - set (s1 := set_upq s (upd (upq s) c r)). assert (R1 : RInv s1) by (eapply RInv_consume_up; eauto).
     assert (RX : forall t v, x = MResult t v -> v = out t /\ In t (fin s1)).
@@ -1170,7 +1190,8 @@ Proof. intros c r k s s' R. unfold Crash.call.
 Qed.
 
 Lemma RInv_step : forall s e s', RInv s -> step s e = Some s' -> RInv s'.
-Proof. intros s e s' R H. destruct e as [n|up c k|c r k|w t|up c tag]; simpl in H.
+Proof. intros s e s' R H. destruct e as [n|up c k|c r k|w t|up c tag|w]; simpl in H.
+  6: { destruct (_ && _ && _); [|discriminate]. inversion H; subst. apply RInv_die. apply RInv_send_up; auto. discriminate. }
   - destruct (_ && _); [|discriminate]. inversion H; subst. apply RInv_die; auto.
   - destruct up. eapply RInv_recv_up; eauto. eapply RInv_recv_down; eauto.
   - eapply RInv_call; eauto.
@@ -1224,7 +1245,8 @@ Proof. intros c s s'. unfold Crash.recv_up. destruct (_ && _ && _ && _); [|discr
   - destruct (cend s c); [discriminate|].
     destruct (kindof (par c)); try discriminate; intros E; inversion E; subst s'; clear E.
     + destruct (is_client c). apply ale_client_gone.
-      eapply ale_trans. apply ale_shutdown. apply ale_same; reflexivity.
+      change (ale (server_from_employee (par c) c None s) s). unfold Crash.server_from_employee. destruct attached.
+      apply ale_shutdown. eapply ale_trans. apply ale_shutdown. apply ale_same; reflexivity.
     + eapply ale_trans. apply ale_shutdown. apply ale_same; reflexivity.
   - set (s1 := set_upq s (upd (upq s) c r)).
     destruct (kindof (par c)); try discriminate; intros E; inversion E; subst s'; clear E.
@@ -1256,7 +1278,8 @@ Proof. intros c k s s'. unfold Crash.recv_down. destruct (_ && _ && _ && _); [|d
 Qed.
 
 Lemma ale_step : forall s e s', step s e = Some s' -> ale s' s.
-Proof. intros s e s' H. destruct e as [n|up c k|c r k|w t|up c tag]; simpl in H.
+Proof. intros s e s' H. destruct e as [n|up c k|c r k|w t|up c tag|w]; simpl in H.
+  6: { destruct (_ && _ && _); [|discriminate]. inversion H; subst. eapply ale_trans. apply ale_die. apply ale_same; reflexivity. }
   - destruct (_ && _); [|discriminate]. inversion H; subst. apply ale_die.
   - destruct up. eapply ale_recv_up; eauto. eapply ale_recv_down; eauto.
   - unfold Crash.call in H. destruct (_ && _ && _ && _ && _ && _); [|discriminate].
@@ -1288,22 +1311,29 @@ Proof. unfold Crash.quiescent. intros s H. apply negb_false_iff in H. apply any_
   destruct (recv_down c 1 s) as [s'|] eqn:E2; [|discriminate]. exists false, c, 1, s'. simpl. auto. Qed.
 
 (* ---- the three C14 theorems ------------------------------------------------------------------ *)
-Theorem crash_propagates : wf_topo = true -> forall s n s1,
-  reach s -> good_crash n = true -> step s (ECrash n) = Some s1 ->
+Theorem crash_propagates : wf_topo = true -> forall s n e0 s1,
+  reach s -> (e0 = ECrash n /\ good_crash n = true \/ e0 = EFail n) -> step s e0 = Some s1 ->
   forall es s2, forallb good_event es = true -> run s1 es = Some s2 ->
     count_recv es + variant s2 <= variant s1 /\
     (quiescent s2 = true -> all_down s2 = true) /\
     (quiescent s2 = false -> exists up c k s3, step s2 (ERecv up c k) = Some s3).
-Proof. intros WF s n s1 R G C es s2 GE RUN.
-  assert (R1 : reach s1) by (apply reach_step with (s := s) (e := ECrash n); auto).
+Proof. intros WF s n e0 s1 R G C es s2 GE RUN.
+  assert (R1 : reach s1).
+  { apply reach_step with (s := s) (e := e0); auto. destruct G as [[G1 G2]|G]; subst; auto. }
   assert (R2 : reach s2) by (eapply reach_run; eauto).
   split. apply run_variant; auto. split; [|apply not_quiescent].
   intros Q. apply progress; auto. apply reach_Inv; auto.
-  simpl in C. destruct (crashable T n && alive s n) eqn:E; [|discriminate]. inversion C; subst s1.
-  apply andb_true_iff in E. destruct E as [E _]. unfold crashable in E. apply andb_true_iff in E. destruct E as [E1 E2].
-  apply Nat.ltb_lt in E1. exists n. split; auto. split.
-  unfold Crash.is_client. destruct (kindof n); auto; discriminate.
-  eapply dead_stays; eauto. cbn [Crash.die alive set_alive set_cend set_pend]. apply upd_eq.
+  exists n. destruct G as [[G1 G2]|G]; subst e0; simpl in C.
+  - destruct (crashable T n && alive s n) eqn:E; [|discriminate]. inversion C; subst s1.
+    apply andb_true_iff in E. destruct E as [E _]. unfold crashable in E. apply andb_true_iff in E. destruct E as [E1 E2].
+    apply Nat.ltb_lt in E1. split; auto. split.
+    unfold Crash.is_client. destruct (kindof n); auto; discriminate.
+    eapply dead_stays; eauto. cbn [Crash.die alive set_alive set_cend set_pend]. apply upd_eq.
+  - destruct (_ && _ && _) eqn:E; [|discriminate]. inversion C; subst s1.
+    apply andb_true_iff in E. destruct E as [E _]. apply andb_true_iff in E. destruct E as [E1 E2].
+    apply Nat.ltb_lt in E1. split; auto. split.
+    unfold Crash.is_client. destruct (kindof n); auto; discriminate.
+    eapply dead_stays; eauto. cbn [Crash.die alive set_alive set_cend set_pend send_up set_upq]. apply upd_eq.
 Qed.
 
 Definition is_answer (o : outcome) : Prop :=
